@@ -34,7 +34,7 @@ var watchRoot = scratchRoot("/tmp/cdi-verif-watch")
 
 // file-system operations of a history (each applies to the single configured directory D)
 var watchOps = []string{"writeInPlace", "writeViaTemp", "rewrite", "unlink", "renameAway", "moveIn", "linkIn", "creatEmpty",
-	"tempFile", "rmdir", "mkdir", "lock", "unlock", "pause", "moveInOld", "linkInOld", "writeBad", "replaceKeepStat"}
+	"tempFile", "rmdir", "mkdir", "lock", "unlock", "pause", "moveInOld", "linkInOld", "writeBad", "replaceKeepStat"} // (symlinkIn/retarget only in fixed histories: a later write through the link happens in another directory)
 
 func specBytes(tag string, n int) []byte { return specBytesOf("vendor.com/class", tag, n) }
 
@@ -71,6 +71,10 @@ func (watchStream) Generate(rng *rand.Rand, tier string, emit func(Case)) {
 		// a version of the same size and modification time replaces the file
 		{"writeInPlace", "pause", "replaceKeepStat"}, {"writeViaTemp", "pause", "replaceKeepStat", "pause", "replaceKeepStat"}, {"moveIn", "pause", "replaceKeepStat"},
 		{"writeInPlace", "pause", "unlink", "pause", "writeInPlace", "pause", "unlink", "pause", "writeInPlace"},
+		// a Spec installed as a symbolic link to a file kept elsewhere (ln -s /opt/vendor/x.json /etc/cdi/x.json); the link
+		// replaced by one to another version (ln -sfn via rename)
+		{"symlinkIn"}, {"symlinkIn", "pause", "unlink", "pause", "symlinkIn"}, {"writeInPlace", "pause", "unlink", "symlinkIn"}, {"symlinkIn", "pause", "retarget"},
+		{"symlinkIn", "pause", "retarget", "pause", "retarget"}, {"rmdir", "mkdir", "pause", "symlinkIn"},
 	}
 	for hi, h := range fixed {
 		for _, start := range []bool{true, false} {
@@ -94,6 +98,11 @@ func (watchStream) Generate(rng *rand.Rand, tier string, emit func(Case)) {
 	// queried once
 	for _, frac := range []int{15, 35, 60} {
 		emit(Case{"op": "slowscan", "files": 6, "devices": 3000, "percent": frac})
+	}
+	// the kernel's event queue overflows while the watcher waits for the mutex; a Spec file is written while the
+	// watcher scans afterwards (its event is dropped, the scan has already listed the directory)
+	for _, frac := range []int{40, 60} {
+		emit(Case{"op": "overflow", "files": 2500, "percent": frac})
 	}
 	// several configured directories: operations are tagged with the directory they act on ("op@i")
 	multiFixed := [][]string{
@@ -268,6 +277,26 @@ func doFsOpKind(kind, op, d, outside string, counter *int) bool {
 		src := filepath.Join(outside, "ln-"+tag)
 		_ = os.WriteFile(src, specBytes(tag, 1+*counter%3), 0o644)
 		return os.Link(src, target) == nil
+	case "symlinkIn":
+		if !dirExists() || fileExists() {
+			return false
+		}
+		src := filepath.Join(outside, "sym-"+tag)
+		_ = os.WriteFile(src, specBytes(tag, 1+*counter%3), 0o644)
+		return os.Symlink(src, target) == nil
+	case "retarget":
+		// the Spec name is (or becomes) a link to a new version: a new link is made next to it and renamed over it
+		if !dirExists() {
+			return false
+		}
+		src := filepath.Join(outside, "sym-"+tag)
+		_ = os.WriteFile(src, specBytes(tag, 1+*counter%3), 0o644)
+		tmp := filepath.Join(d, "spec.456.tmp")
+		_ = os.Remove(tmp)
+		if os.Symlink(src, tmp) != nil {
+			return false
+		}
+		return os.Rename(tmp, target) == nil
 	case "moveInOld", "linkInOld":
 		// a file prepared long ago (old modification time) enters the directory
 		if !dirExists() || (op == "linkInOld" && fileExists()) {
@@ -414,6 +443,50 @@ func (watchStream) Execute(c Case) {
 		want := len(fresh.ListDevices())
 		converged := false
 		for deadline := time.Now().Add(8 * time.Second); time.Now().Before(deadline); time.Sleep(30 * time.Millisecond) {
+			if len(cache.ListDevices()) == want && cache.GetDevice("late.com/class=dev0") != nil {
+				converged = true
+				break
+			}
+		}
+		obs["converged"], obs["scanms"] = converged, scan.Milliseconds()
+	case "overflow":
+		// events are lost: while the watcher waits for the cache mutex the kernel's event queue fills up with events
+		// the watcher will filter out (two log files written in turn); a Spec file written while the watcher then
+		// scans is not announced (queue full) and not seen by that scan. The kernel leaves an overflow marker.
+		_ = os.MkdirAll(d, 0o755)
+		for i := 0; i < kindIdx(c["files"]); i++ {
+			_ = os.WriteFile(filepath.Join(d, fmt.Sprintf("big%04d.json", i)), specBytesOf(fmt.Sprintf("big%d.com/class", i), "big", 1), 0o644)
+		}
+		t0 := time.Now()
+		_, _ = cdi.NewCache(cdi.WithSpecDirs(d), cdi.WithAutoRefresh(false))
+		scan := time.Since(t0)
+		cache, _ := cdi.NewCache(cdi.WithSpecDirs(d), cdi.WithAutoRefresh(true))
+		defer func() { _ = cache.Configure(cdi.WithAutoRefresh(false)) }()
+		_ = cache.ListDevices()
+		maxq := 16384
+		if b, err := os.ReadFile("/proc/sys/fs/inotify/max_queued_events"); err == nil {
+			_, _ = fmt.Sscan(string(b), &maxq)
+		}
+		cache.Lock()
+		if f, err := os.OpenFile(filepath.Join(d, "t.json"), os.O_CREATE|os.O_WRONLY, 0o644); err == nil {
+			_ = f.Close() // one event that passes the filter: the watcher now waits for the mutex
+		}
+		time.Sleep(50 * time.Millisecond)
+		f1, _ := os.OpenFile(filepath.Join(d, "one.log"), os.O_CREATE|os.O_WRONLY|os.O_APPEND, 0o644)
+		f2, _ := os.OpenFile(filepath.Join(d, "two.log"), os.O_CREATE|os.O_WRONLY|os.O_APPEND, 0o644)
+		for i := 0; i < maxq*3/4; i++ {
+			_, _ = f1.Write([]byte("x"))
+			_, _ = f2.Write([]byte("y"))
+		}
+		_ = f1.Close()
+		_ = f2.Close()
+		cache.Unlock()
+		time.Sleep(scan * time.Duration(kindIdx(c["percent"])) / 100)
+		_ = os.WriteFile(filepath.Join(d, "zzz-late.json"), specBytesOf("late.com/class", "fresh", 1), 0o644)
+		fresh, _ := cdi.NewCache(cdi.WithSpecDirs(d), cdi.WithAutoRefresh(false))
+		want := len(fresh.ListDevices())
+		converged := false
+		for deadline := time.Now().Add(6 * time.Second); time.Now().Before(deadline); time.Sleep(50 * time.Millisecond) {
 			if len(cache.ListDevices()) == want && cache.GetDevice("late.com/class=dev0") != nil {
 				converged = true
 				break
